@@ -1,13 +1,15 @@
 #!/bin/bash
 # Isolated bench for trying a patch against the checks without touching /repo (used while other work depends on /repo):
 #   tools/mutbench.sh <patch.diff> <Cxx> [<Cyy> ...]      (env TIER=quick|thorough, SEED=n)
-# Uses /tmp/vbench (copy of /verif) and /tmp/mutrepo (worktree of /repo HEAD with the patch applied).
+# Uses /tmp/vbench (the COMMITTED state of /verif, build output kept between runs) and /tmp/mutrepo (worktree of /repo HEAD
+# with the patch applied).
 set -e
 PATCH=$1; shift
 BENCH=${BENCH:-/tmp/vbench}; MREPO=${MREPO:-/tmp/mutrepo}
 mkdir -p $BENCH
-rsync -a --delete --exclude .git --exclude 'harness/target' --exclude 'evidence/replay' /verif/ $BENCH/ >/dev/null
+git -C /verif archive HEAD | tar -x -C $BENCH
 [ -d $BENCH/harness/target ] || cp -r /verif/harness/target $BENCH/harness/target
+[ -d $BENCH/lean/.lake ] || cp -r /verif/lean/.lake $BENCH/lean/.lake
 if [ ! -d $MREPO ]; then git -C /repo worktree add --detach -q $MREPO HEAD; fi
 git -C $MREPO checkout -q --detach $(git -C /repo rev-parse HEAD); git -C $MREPO checkout -q -- . ; git -C $MREPO clean -fdq -e target
 if [ "$PATCH" != "none" ]; then git -C $MREPO apply "$PATCH"; fi
